@@ -8,7 +8,9 @@
 (*              odd digit count                                              *)
 (*   ASCII85:   no 'z' shortcut, white space inside groups                   *)
 (*   LZW:       literals only with a clear code every 7 codes; literals only *)
-(*              with a growing code length (both EarlyChange settings)       *)
+(*              with a growing code length (both EarlyChange settings); a    *)
+(*              deferred clear code (table filled, the last entry used       *)
+(*              repeatedly with the frozen table, then clear)                *)
 (*   PNG:       a different filter type on every row; TIFF predictor 2       *)
 EXTENDS Naturals, Sequences, FiniteSets, TLC, Json, IOUtils, SequencesExt
 CONSTANTS TIER
@@ -49,6 +51,9 @@ LzwInputs == {Lcg(s, n) : s \in {1, 2}, n \in {0, 1, 2, 9, 253, 254, 255, 256, 2
 LzwCases == UNION {{ [fmt |-> "lzw", variant |-> "clear7", early |-> e, data |-> x, enc |-> LZ!EncLiteralsClear(x, 7)],
                      [fmt |-> "lzw", variant |-> "grow", early |-> e, data |-> x, enc |-> LZ!EncLiteralsGrow(x, e)] }
                    : x \in LzwInputs, e \in {0, 1}}
+            \cup {[fmt |-> "lzw", variant |-> "deferred-clear-tlc", early |-> e,
+                   data |-> LZ!DeferredData(Lcg(7, 3845), e, r, Lcg(8, 5)),
+                   enc |-> LZ!EncDeferredClear(Lcg(7, 3845), e, r, Lcg(8, 5))] : e \in {0, 1}, r \in (IF Big THEN {1, 2, 3} ELSE {3})}
 
 \* ---- predictors
 PrParams == {[pred |-> pd, colors |-> c, bpc |-> b, cols |-> w] :
